@@ -16,8 +16,9 @@ SHAPES = [(nx, ny, nz) for nx in (1, 2, 3) for ny in (1, 2, 3) for nz in (1, 2, 
 GRID2 = dict(plon=-100., plat=45., iutm=0, xorg=-24., yorg=12., delx=4., dely=4., iproj=2, istag=0,
              tlat1=30., tlat2=60.)
 FORMATS = ('uamiv', 'lateral_boundary', 'humidity', 'vertical_diffusivity', 'one3d', 'temperature',
-           'height_pressure', 'wind')
-MET = ('humidity', 'vertical_diffusivity', 'one3d', 'temperature', 'height_pressure', 'wind')
+           'height_pressure', 'wind', 'cloud_rain')
+MET = ('humidity', 'vertical_diffusivity', 'one3d', 'temperature', 'height_pressure', 'wind', 'cloud_rain')
+CLDHDRS = ['CAMx_V4.3 CLOUD_RAIN', 'CAMx_V6.5 CLOUD_RAIN']
 
 
 def field(kind, shape, base):
@@ -94,6 +95,14 @@ def extras(fmt, add):
         for n in (1, 2, 3):
             add(name=NAMES.index('EMISSIONS'), shape=[3, 2, 1], nsteps=n, hdr_nz0=True)
             add(name=NAMES.index('EMISSIONS'), shape=[2, 3, 1], nsteps=n, hdr_nz0=True, spc=2)
+    if fmt == 'cloud_rain':
+        # files older than CAMx 4.3 hold three variables per layer (cloud, precip, optical depth)
+        for n in (1, 2, 3):
+            add(nsteps=n, crv3=True)
+            add(nsteps=n, crv3=True, shape=[2, 2, 1])
+            add(nsteps=n, crv3=True, shape=[2, 3, 3])
+        add(cldhdr=1)
+        add(cldhdr=1, nsteps=1)
     if fmt == 'wind':
         # older 8-byte time header without the staggering flag
         for n in (1, 2, 3, 4, 5):
@@ -150,6 +159,11 @@ def materialize(d):
         r['u'] = mk(0)
         r['v'] = mk(500000)
         r['lstagger'] = None if d.get('hdr8') else 0
+    elif fmt == 'cloud_rain':
+        r['crvars'] = list(rf.CR_VARS3 if d.get('crv3') else rf.CR_VARS5)
+        r['cldhdr'] = CLDHDRS[d.get('cldhdr', 0)]
+        for i, k in enumerate(r['crvars']):
+            r[k] = mk(200000 * i)
     return r
 
 
@@ -166,3 +180,33 @@ def expected_tflag(r):
     b = [(window(d), h * 10000) for d, h in r['instants'][:-1]]
     e = [(window(d), h * 10000) for d, h in r['instants'][1:]]
     return b, e
+
+
+# --------------------------------------------------------------------------
+# land-use files (no time axis): descriptors {'fmt': 'landuse', 'style', 'others', 'shape': [nx, ny], 'payload'}
+
+LU_STYLES = ('new11', 'new26', 'old')
+LU_OTHERS = {'old': [[], ['TOPO']], 'new11': [[], ['LAI'], ['TOPO'], ['LAI', 'TOPO']],
+             'new26': [[], ['LAI'], ['TOPO'], ['LAI', 'TOPO']]}
+
+
+def landuse_descs(tier):
+    out = []
+    shapes = [(3, 2), (1, 1), (2, 2), (1, 3), (3, 1)] + ([(2, 3), (3, 3), (4, 2)] if tier == 'thorough' else [])
+    pays = PAYLOADS if tier == 'thorough' else ['ramp', 'negzero', 'denorm']
+    for style in LU_STYLES:
+        for oth in LU_OTHERS[style]:
+            for sh in shapes:
+                for p in (pays if sh == (3, 2) else ['ramp']):
+                    out.append({'fmt': 'landuse', 'style': style, 'others': list(oth), 'shape': list(sh),
+                                'payload': p})
+    return out
+
+
+def materialize_landuse(d):
+    nx, ny = d['shape']
+    nland = 26 if d['style'] == 'new26' else 11
+    r = {'fmt': 'landuse', 'style': 'old' if d['style'] == 'old' else 'new', 'nland': nland, 'nx': nx, 'ny': ny,
+         'fland': field(d['payload'], (nland, ny, nx), 1),
+         'others': [(k, field(d['payload'], (ny, nx), 5000 * (i + 1))) for i, k in enumerate(d['others'])]}
+    return r
